@@ -132,6 +132,8 @@ def foreign_followup(R, o, r, T, mods, names, opname):
     try:
         explicit = o.get('follow')
         ops = []
+        if explicit is None:
+            o['follow'] = ops       # (recorded even when empty: a replay must not generate a continuation of its own)
         names_, weights = list(FOLLOW_OPS), list(FOLLOW_OPS.values())
         n = len(explicit) if explicit is not None else sub.xr.choice([1, 2, 2, 3])
         for k in range(n):
@@ -155,8 +157,6 @@ def foreign_followup(R, o, r, T, mods, names, opname):
                 if fo is None:
                     break
             ops.append(fo)
-            if explicit is None:
-                o['follow'] = ops
             R.stat('follow-op:' + fo['op'])
             R.do_step(fo)
             sub.slots = [s_ for s_ in sub.slots if s_ is not None]
